@@ -211,6 +211,11 @@ def run(program, res, tier):
                         f"the window sort runs only if `{unparse(b_.cond)[:80]}`, a test of the step's functions: an ordered window whose functions are not on that list "
                         f"(_count(), a running count) is computed in the incoming row order — Pandas then disagrees with SQL's OVER (… ORDER BY …) and depends on the row order", b_.cond)
             continue
+        if depsmod.has_root(d.cond_roots(b_), "op.sources"):
+            res.fail_at("C27-S1", pe, "pandas-sort-skipped-on-source-test",
+                        f"the window sort runs only if `{unparse(b_.cond)[:80]}`, a test of the step below: what an order_rows further down left behind is not the window's "
+                        f"order (fewer columns, other directions, ties in input order), so the window depends on the incoming row order", b_.cond)
+            continue
         reads_rows = [x.id for x in ast.walk(b_.cond) if isinstance(x, ast.Name) and x.id in frames]
         if not reads_rows:
             continue
@@ -303,9 +308,23 @@ def run(program, res, tier):
             res.ok("C27-S3", "Polars: the sort precedes with_columns(produced terms)")
         else:
             res.fail_at("C27-S3", pl, "polars-sort-after-compute", "the Polars sort does not precede the windowed computation")
-        guards = " ".join(unparse(b.cond) for b, _l in g2.lexical_guards(n))
-        if "len(op.order_by) > 0" in guards:
-            res.ok("C27-S3", "Polars: sorts whenever order_by is non-empty")
+        # the sort may be left out only when there is nothing to sort by: every condition it runs under is decided by op.order_by alone.  A test that
+        # looks at the step below (already sorted by an order_rows?), at the functions or at the rows makes the window depend on the incoming row order
+        lg = [b for b, _l in g2.lexical_guards(n)]
+        guards = " ".join(unparse(b.cond) for b in lg)
+        foreign = None
+        for b in lg:
+            extra = [r for r in d2.cond_roots(b) if not (r == "op.order_by" or r.startswith("op.order_by.") or r == "op"
+                                                         or r in ("call:len", "call:list", "call:tuple", "call:set", "call:bool"))]
+            if extra:
+                foreign = (b, extra)
+        if foreign is not None:
+            res.fail_at("C27-S3", pl, "polars-sort-skipped-on-foreign-test",
+                        f"the Polars window sort runs only if `{unparse(foreign[0].cond)[:80]}`, which also depends on {sorted(foreign[1])[:4]}: whenever that test lets an ordered window through "
+                        f"unsorted (an order_rows below that sorts by fewer columns, other directions, or whose order a later step does not keep), shift / cumsum / first / last "
+                        f"are computed in the incoming row order", foreign[0].cond)
+        elif lg and all(depsmod.has_root(d2.cond_roots(b), "op.order_by") for b in lg):
+            res.ok("C27-S3", "Polars: the window sort is guarded by op.order_by alone (left out only when there is nothing to sort by)")
         else:
             res.fail_at("C27-S3", pl, "polars-sort-guard", f"the Polars sort runs under `{guards}`")
     # ------------------------------------------------------------------ SQL
